@@ -6,6 +6,7 @@ import (
 	"mvdan.cc/sh/v3/syntax"
 
 	"verifh/norm"
+	"verifh/synex"
 	"verifh/vh"
 )
 
@@ -97,9 +98,25 @@ var classes = []class{
 		}
 		for _, it := range items {
 			switch it.Node.(type) {
-			case *syntax.CmdSubst, *syntax.ProcSubst, *syntax.ArithmCmd, *syntax.ArithmExp, *syntax.Subshell, *syntax.DblQuoted:
+			case *syntax.CmdSubst, *syntax.ProcSubst, *syntax.ArithmCmd, *syntax.ArithmExp, *syntax.Subshell, *syntax.DblQuoted, *syntax.ArrayExpr, *syntax.CaseClause:
 				if p, e := it.Node.Pos(), it.Node.End(); p.IsValid() && e.IsValid() && e.Line() > p.Line() {
 					return true
+				}
+			}
+			// "( (a; b) )": the inner list is broken over lines by Minify itself
+			var stmts []*syntax.Stmt
+			switch n := it.Node.(type) {
+			case *syntax.Subshell:
+				stmts = n.Stmts
+			case *syntax.CmdSubst:
+				stmts = n.Stmts
+			}
+			if len(stmts) > 0 {
+				for _, st := range []*syntax.Stmt{stmts[0], stmts[len(stmts)-1]} {
+					switch st.Cmd.(type) {
+					case *syntax.Subshell, *syntax.ArithmCmd:
+						return true
+					}
 				}
 			}
 		}
@@ -141,29 +158,27 @@ var classes = []class{
 		}
 		return false
 	}},
-	{"C02-hdoc-stmt-escaped-newline", func(c Case, f *syntax.File, items []norm.Item) bool {
-		// an escaped newline inside the statement that owns a here-document
-		for i, it := range items {
-			r, ok := it.Node.(*syntax.Redirect)
-			if !ok || !isHdoc(r) || r.Hdoc == nil || items[i].Parent < 0 {
-				continue
-			}
-			if strings.Contains(span(c.Src, items[items[i].Parent].Node.Pos(), r.Hdoc.Pos()), "\\\n") {
-				return true
-			}
-		}
-		return false
+	{"C02-nested-subshell-close", func(c Case, f *syntax.File, items []norm.Item) bool {
+		// "( (a; b) )", "$( (a) )", "(b | (c))": the spacing of adjacent
+		// parentheses depends on line layout and changes on the second pass
+		return synex.ParenAdjacent(f)
 	}},
 	{"C02-singleline-comment-escaped-newline", func(c Case, f *syntax.File, items []norm.Item) bool {
-		if !c.Cfg.SingleLine || !strings.Contains(c.Src, "\\\n") {
+		// SingleLine with comments, together with an escaped newline or a
+		// here-document
+		if !c.Cfg.SingleLine {
 			return false
 		}
+		com, hd := false, false
 		for _, it := range items {
-			if _, ok := it.Node.(*syntax.Comment); ok {
-				return true
+			switch n := it.Node.(type) {
+			case *syntax.Comment:
+				com = true
+			case *syntax.Redirect:
+				hd = hd || isHdoc(n)
 			}
 		}
-		return false
+		return com && (hd || strings.Contains(c.Src, "\\\n"))
 	}},
 }
 
